@@ -65,6 +65,11 @@ func (m *c05Mon) after(h *H, s *step) {
 		}
 		c.Class("logout-answer")
 	}
+	if s.Kind == "logout" && w.IsLoginRedirect(r) && len(s.Presented) > 0 && !faulted {
+		// "logout expires it": a logout request that names a session is not answered by starting a login under a new,
+		// unexpired cookie - whatever state that session's tokens are in
+		c.Violation("logout-answered-with-login", "step #%d: the logout request presenting session %s is answered with a login redirect %v", s.N, short(s.Presented[0], 12), r)
+	}
 	if w.IsLoginRedirect(r) {
 		if s.NewID == "" {
 			c.Violation("redirect-without-new-id", "login redirect at step #%d carries no session cookie", s.N)
